@@ -1224,7 +1224,7 @@ Definition apply_prim (p : prim) (args : sx) : M sx :=
       match args with
       | Nil => ret Nil
       | Cons name (Cons v Nil) =>
-          value <- ev v ;; n <- ev name ;; _ <- sym_set n value ;; ret value
+          n <- ev name ;; value <- ev v ;; _ <- sym_set n value ;; ret value
       | _ => fail EType
       end
   | PCons =>
